@@ -318,6 +318,18 @@ fn oracle_hashfn(kind: &str, name: &[u8]) -> V {
     }
 }
 
+/// all failures of all oracles for one line (each tagged with the property whose predicate failed)
+pub fn oracle_all(line: &str, ann: &str) -> Vec<String> {
+    let mut out = vec![];
+    if let Err(e) = oracle_line(line, ann) {
+        out.push(e);
+    }
+    if let Err(e) = crate::oracle2::oracle_alloc(line) {
+        out.push(e);
+    }
+    out
+}
+
 pub fn oracle_line(line: &str, ann: &str) -> V {
     let t: Vec<&str> = line.trim().split(' ').collect();
     match t.as_slice() {
